@@ -1014,3 +1014,35 @@ mod test {
         mqtt.outgoing_ping().unwrap();
     }
 }
+
+#[cfg(feature = "verif")]
+impl MqttState {
+    /// Canonical rendering of the bookkeeping, without the wall-clock instants.
+    pub fn verif_digest(&self) -> String {
+        let outgoing: Vec<(usize, &Publish)> = self
+            .outgoing_pub
+            .iter()
+            .enumerate()
+            .filter_map(|(i, p)| p.as_ref().map(|p| (i, p)))
+            .collect();
+        let mut aliases: Vec<_> = self.topic_alises.iter().collect();
+        aliases.sort();
+        format!(
+            "ping={} cpc={} pkid={} inflight={}/{}/{} pub={:?} rel={:?} inc={:?} col={:?} ev={:?} manual={} alias={:?}/{}",
+            self.await_pingresp,
+            self.collision_ping_count,
+            self.last_pkid,
+            self.inflight,
+            self.max_outgoing_inflight,
+            self.max_outgoing_inflight_upper_limit,
+            outgoing,
+            self.outgoing_rel.ones().collect::<Vec<_>>(),
+            self.incoming_pub.ones().collect::<Vec<_>>(),
+            self.collision,
+            self.events,
+            self.manual_acks,
+            aliases,
+            self.broker_topic_alias_max
+        )
+    }
+}
